@@ -30,15 +30,15 @@ type lifter struct {
 }
 
 type scope struct {
-	l     *lifter
-	vars  map[string]*cell
-	idents map[string]bool // names that are identifiers holding a private copy (params, locals, range variables)
-	depth int
-	nres  int
-	pend  map[string]*sx.Node // variable -> (try …) node still waiting for its wrap
+	l        *lifter
+	vars     map[string]*cell
+	idents   map[string]bool // names that are identifiers holding a private copy (params, locals, range variables)
+	depth    int
+	nres     int
+	pend     map[string]*sx.Node // variable -> (try …) node still waiting for its wrap
 	lastDecl string
-	result *sx.Node
-	update string // name of the update target parameter ("" when the function returns the target)
+	result   *sx.Node
+	update   string // name of the update target parameter ("" when the function returns the target)
 }
 
 func h(head string, xs ...*sx.Node) *sx.Node { return sx.H(head, xs...) }
